@@ -221,6 +221,7 @@ pub fn run(ctx: &Ctx) -> Report {
     "complete enumeration: 8 allow subsets x piece lengths on both sides of every threshold x 4 private/announce combinations (and, for three piece lengths, the same with --announce-tier and --node given; for eight piece lengths also with a directory and with standard input as content; for six with the length spelled with a unit), on the real binary; \
      non-trivial = at least one rule violated or a lint allowed; distinct by (mask,p,private,announce,tier,input,spelling)",
   );
+  report.rule.push_str("; the same request written differently (each lint twice, all lints after one --allow, descending order, a fractional length, an upper-case unit, --dry-run, global --quiet, an announce URL without a host, content far larger than the piece length); --dry-run with lengths >= 2^32");
   report.correspondences.push("C14.cli: `imdl torrent create` accept/reject, recorded piece length, named lint = Imdlv.Lints.createDecision".into());
   let mut cases = Vec::new();
   if let Some(rc) = super::replay_cases(ctx) {
